@@ -25,8 +25,8 @@ func wr(p, d string) Step { return Step{Op: "write", Path: p, Data: []byte(d)} }
 // faultCorpus: hand-picked repository states with the modifying commands that make sense in them.
 func faultCorpus() []corpusState {
 	ident := []Step{goit("init"), goit("config", "user.name", "Test User"), goit("config", "--global", "user.email", "test@example.com")}
-	files := []Step{wr("a.txt", "one\n"), wr("dir/b.txt", "two\n"), wr("dir/sub/c d.txt", "three\n"), wr("dir-x", "four\n")}
-	added := append(append(append([]Step{}, ident...), files...), goit("add", "a.txt", "dir", "dir-x"))
+	files := []Step{wr("a.txt", "one\n"), wr("dir/b.txt", "two\n"), wr("dir/sub/c d.txt", "three\n"), wr("dir/tail/e.txt", "3b\n"), wr("dir-x", "four\n"), wr("zz/y.txt", "last\n")}
+	added := append(append(append([]Step{}, ident...), files...), goit("add", "a.txt", "dir", "dir-x", "zz"))
 	c1 := append(append([]Step{}, added...), goit("commit", "-m", "first"))
 	changed := append(append([]Step{}, c1...), wr("a.txt", "one changed\n"), wr("new/e.txt", "five\n"), Step{Op: "remove", Path: "dir/b.txt"})
 	staged2 := append(append([]Step{}, changed...), goit("add", "a.txt", "new", "dir/b.txt"))
@@ -34,11 +34,11 @@ func faultCorpus() []corpusState {
 	two := append(append([]Step{}, c2...), goit("branch", "topic"), goit("switch", "-c", "feature"), wr("f.txt", "six\n"), goit("add", "f.txt"), goit("commit", "-m", "third on feature"))
 	afterReset := append(append([]Step{}, two...), goit("reset", "--hard", "HEAD@{2}"), wr("a.txt", "dirty\n"), Step{Op: "rmdir", Path: "dir"})
 	renamed := append(append([]Step{}, c2...), goit("branch", "-r", "trunk"), goit("branch", "old"))
-	emptied := append(append([]Step{}, c1...), goit("rm", "a.txt", "dir", "dir-x"))
+	emptied := append(append([]Step{}, c1...), goit("rm", "a.txt", "dir", "dir-x", "zz"))
 	return []corpusState{
 		{"no-repository", nil, [][]string{{"init"}}},
 		{"fresh", []Step{goit("init")}, [][]string{{"config", "user.name", "A B"}, {"config", "--global", "user.email", "a@b.cc"}}},
-		{"configured-fresh", append(append([]Step{}, ident...), files...), [][]string{{"add", "a.txt"}, {"add", "a.txt", "dir", "dir-x"}, {"add", "."}, {"config", "user.name", "x=y"}}},
+		{"configured-fresh", append(append([]Step{}, ident...), files...), [][]string{{"add", "a.txt"}, {"add", "a.txt", "dir", "dir-x"}, {"add", "."}, {"add", "dir", "zz"}, {"config", "user.name", "x=y"}}},
 		{"first-commit-pending", added, [][]string{{"commit", "-m", "first"}, {"rm", "dir"}, {"restore", "dir"}}},
 		{"one-commit-dirty", changed, [][]string{{"add", "a.txt", "new", "dir/b.txt"}, {"rm", "dir"}, {"rm", "dir-x", "a.txt"}, {"restore", "a.txt", "dir"}, {"branch", "topic"}, {"switch", "-c", "topic"}}},
 		{"second-commit-pending", staged2, [][]string{{"commit", "-m", "second"}, {"restore", "--staged", "a.txt", "new", "dir"}, {"reset", "--mixed", "HEAD@{0}"}, {"reset", "--hard", "HEAD@{0}"}}},
